@@ -11,7 +11,6 @@ def main():
     with lib.Lock():
         ok, problems, _ = lib.regen()
         print("translator:", "ok" if ok else problems)
-        rc, out, err = lib.run(["coq_makefile", "-f", "_CoqProject", "-o", "Makefile"], cwd=lib.COQ)
         ok2, mlog = lib.coq_make()
         print("coq make:", "ok" if ok2 else mlog[-3000:])
         ok3, errs = lib.build_go()
